@@ -77,7 +77,7 @@ pub fn build(e: &mut Ent, f: &Force) -> (StepCase, Tag) {
         frame = f & MASK24;
     }
     let bus = e.bus_cfg();
-    (StepCase { code, pc, er, ccr, patches, bus, irq }, Tag { kind, n, frame, target, top })
+    (StepCase { code, pc, er, ccr, patches, bus, irq, primer: None }, Tag { kind, n, frame, target, top })
 }
 
 fn classify(case: &StepCase, j: &Judged, t: &Tag, stats: &mut Stats) {
